@@ -44,12 +44,16 @@ def run (o : SnowObj S H) (r : RunOut S H) : SnowObj S H :=
       | some h => some h
       | none => o.hist }
 
-/-- `run()` with the proposed repair (fixes/K6.diff): the outputs of an earlier run are cleared
-before the model function is called -/
+/-- `run()` as repaired (K6: the outputs of an earlier run are cleared before the model function is
+called; K7: an exception clears them again, so a failed run leaves nothing behind) -/
 def runFixed (_o : SnowObj S H) (r : RunOut S H) : SnowObj S H :=
   { status := if r.exc.isNone then 1 else 0,
-    stats := r.stats,
-    hist := r.hist }
+    stats := if r.exc.isNone then r.stats else none,
+    hist := if r.exc.isNone then r.hist else none }
+
+/-- `run()` with the K6 repair only (clear first, nothing on exception) -/
+def runK6 (_o : SnowObj S H) (r : RunOut S H) : SnowObj S H :=
+  { status := if r.exc.isNone then 1 else 0, stats := r.stats, hist := r.hist }
 
 /-- `.results` (`Except.error` = the exception class the accessor raises) -/
 def results (o : SnowObj S H) : Except String (Option S) :=
@@ -60,6 +64,46 @@ def history (o : SnowObj S H) : Except String (Option H) :=
   if o.status = 1 ∨ o.hist.isSome then .ok o.hist else .error "AssertionError"
 
 end SnowObj
+
+/-! ### sequential multi-repetition studies (`Nrep > 1`, `how="sequential"`)
+
+`run()` calls `_run_xD(seed=i)` for `i = 0, 1, …` in order; every repetition that returns publishes
+ITS histories on the object and hands back its statistics row; the first repetition that raises
+ends the study.  The object of a study carries the table of rows (`S = List row`). -/
+
+/-- the repetitions actually executed: up to and including the first one that raises -/
+def executed {S H : Type} : List (RunOut S H) → List (RunOut S H)
+  | [] => []
+  | r :: rs => if r.exc.isNone then r :: executed rs else [r]
+
+/-- the exception of a study (of its last executed repetition) -/
+def studyExc {S H : Type} (reps : List (RunOut S H)) : Option String :=
+  match (executed reps).getLast? with
+  | some r => r.exc
+  | none => none
+
+/-- the histories left on the object by the executed repetitions: those of the last one that published -/
+def studyHist {S H : Type} (reps : List (RunOut S H)) : Option H :=
+  (executed reps).foldl (fun acc r => match r.hist with
+    | some h => some h
+    | none => acc) none
+
+/-- the statistics rows of the repetitions that completed -/
+def studyRows {S H : Type} (reps : List (RunOut S H)) : List S :=
+  (executed reps).filterMap fun r => if r.exc.isNone then r.stats else none
+
+/-- a study on the code with the K6 repair only: a failure in a later repetition leaves the histories of
+the last completed repetition on the object -/
+def SnowObj.runStudyK6 {S H : Type} (_o : SnowObj (List S) H) (reps : List (RunOut S H)) : SnowObj (List S) H :=
+  { status := if (studyExc reps).isNone then 1 else 0,
+    stats := if (studyExc reps).isNone then some (studyRows reps) else none,
+    hist := studyHist reps }
+
+/-- a study on the repaired code (K7): an exception clears everything -/
+def SnowObj.runStudyFixed {S H : Type} (_o : SnowObj (List S) H) (reps : List (RunOut S H)) : SnowObj (List S) H :=
+  { status := if (studyExc reps).isNone then 1 else 0,
+    stats := if (studyExc reps).isNone then some (studyRows reps) else none,
+    hist := if (studyExc reps).isNone then studyHist reps else none }
 
 def out0D {α : Type} (r : Result0D α) : RunOut (Stats0D α) (Hist0D α) := ⟨r.exc, r.stats, r.hist⟩
 def out1D {α : Type} (r : Result1D α) : RunOut (Stats1D α) (Array (Row α)) := ⟨r.exc, r.stats, r.hist⟩
